@@ -241,6 +241,15 @@ let do_waff () =
     pr "%s line %d :\n" id !ln; incr ln
   done
 
+(* ---------- RNG: the driver's mt19937/uniform stream (an input of the model) ---------- *)
+let do_rng () =
+  let id = "R " ^ tok () in
+  let seed = int () in let n = int () in
+  let g = mt_stream (seed land 0xFFFFFFFF) in
+  let l = List.init n (fun _ -> f64 (g ())) in
+  pr "%s draws %s\n" id (hxs l);
+  pr "%s std %s\n" id (hxs l)
+
 let () =
   let ic = open_in Sys.argv.(1) in
   let oc = open_out Sys.argv.(2) in
@@ -257,6 +266,7 @@ let () =
          | "E2E" -> do_e2e ()
          | "LAYOUT" -> do_layout ()
          | "WAFF" -> do_waff ()
+         | "RNG" -> do_rng ()
          | "#" -> ()
          | c -> failwith ("unknown component " ^ c))
       with e -> pr "DRIVER-ERROR %s in: %s\n" (Printexc.to_string e) (String.sub line 0 (min 60 (String.length line))));
